@@ -57,7 +57,34 @@ type logSink struct{}
 
 var readyMark = []byte("Wait til the server shutdown")
 
+var (
+	errMu    sync.Mutex
+	errLines []string
+)
+
+// TakeErrors returns (and forgets) the teamserver's recent error-level log lines: they say
+// why a send failed (e.g. the teamserver's own write deadline expiring on an overloaded
+// machine), which the websocket side cannot see.
+func TakeErrors() []string {
+	errMu.Lock()
+	defer errMu.Unlock()
+	e := errLines
+	errLines = nil
+	return e
+}
+
 func (logSink) Write(p []byte) (int, error) {
+	if bytes.Contains(p, []byte("ERRO")) {
+		errMu.Lock()
+		if len(errLines) < 200 {
+			l := string(p)
+			if len(l) > 300 {
+				l = l[:300]
+			}
+			errLines = append(errLines, strings.TrimSpace(l))
+		}
+		errMu.Unlock()
+	}
 	if bytes.Contains(p, readyMark) {
 		select {
 		case readyCh <- struct{}{}:
